@@ -798,13 +798,24 @@ class BaseRepo:
 
         if determine_wants is None:
             determine_wants = target.object_store.determine_wants_all
+        graph_walker = target.get_graph_walker()
+        # The target's shallow boundary may only move once the objects are
+        # stored: if storing them fails, a boundary that has already been
+        # moved or lifted describes history the target does not have.
+        shallow_updates: list[tuple[set[ObjectID] | None, set[ObjectID] | None]] = []
+        if getattr(graph_walker, "update_shallow", None) is not None:
+            graph_walker.update_shallow = lambda new_shallow, unshallow: (
+                shallow_updates.append((new_shallow, unshallow))
+            )
         count, pack_data = self.fetch_pack_data(
             determine_wants,
-            target.get_graph_walker(),
+            graph_walker,
             progress=progress,
             depth=depth,
         )
         target.object_store.add_pack_data(count, pack_data, progress)
+        for new_shallow, unshallow in shallow_updates:
+            target.update_shallow(new_shallow, unshallow)
         return self.get_refs()
 
     def fetch_pack_data(
